@@ -2896,6 +2896,14 @@ func (s *Store) fsmRestore(rc io.ReadCloser) (retErr error) {
 		return fmt.Errorf("failed to remove clean snapshot file: %w", err)
 	}
 	vhook.Point("fsmrestore.after_fp_remove")
+
+	// Any WAL files still staged from earlier snapshot attempts which never reached
+	// the Snapshot store predate the database about to be installed. If they were
+	// left in place the next incremental snapshot would package them on top of the
+	// snapshot this database came from, and a restore would replay their stale pages.
+	if err := os.RemoveAll(s.walStagingDir); err != nil {
+		return fmt.Errorf("failed to remove stale staged WAL files: %w", err)
+	}
 	if err := s.db.Swap(tmpPath, s.dbConf.FKConstraints, true); err != nil {
 		return fmt.Errorf("error swapping database file: %v", err)
 	}
